@@ -104,6 +104,9 @@ func c11Gen(r *driver.Rand, thorough bool) *driver.Plan {
 			}
 		}
 	}
+	if p.CancelMs > 0 && r.Chance(1, 2) {
+		p.SetX("ctx_deadline", 1) // the context carries a deadline (cancelled one nanosecond before it)
+	}
 	if r.Chance(1, 6) && p.Consumers[0].Abandon >= 0 && (p.CancelStep >= 0 || p.CancelMs > 0) {
 		slow := false
 		for _, d := range c.DelaysMs {
@@ -170,11 +173,15 @@ func c11Final(e *driver.Env) {
 	if p.Stage == "Emit" {
 		freq := planInterval(p)
 		// C11.b: the function is called at most once per tick: by the time the
-		// call with index i happens, i+1 ticks have elapsed. (Deliberately not
-		// "two calls are at least one frequency apart": an emitter driven by a
-		// ticker may serve a tick late, after back-pressure, and the next one
-		// on time — still one call per tick.)
+		// call with index i happens, i+1 ticks have elapsed …
 		for i, c := range s.Calls.List {
+			// … and never twice within one period: two calls are at least one
+			// frequency apart
+			if i > 0 && c.VT-s.Calls.List[i-1].VT < freq {
+				e.Failf("C11.b", "Emit called its function twice within one frequency tick",
+					"frequency %v: calls %d and %d at %v and %v", freq, i, i+1, s.Calls.List[i-1].VT, c.VT)
+				return
+			}
 			if c.VT < time.Duration(i+1)*freq {
 				e.Failf("C11.b", "Emit called its function more than once per frequency tick",
 					"frequency %v: call number %d at %v, before %d ticks had elapsed", freq, i+1, c.VT, i+1)
